@@ -12,3 +12,5 @@ import GoMC.Props.C10
 #print axioms GoMC.Props.C10.C10_dec_enc_impl
 #print axioms GoMC.Props.C10.C10_stream_transparent
 #print axioms GoMC.Props.C10.C10_conn_transparent
+#print axioms GoMC.Props.C10.C10_switch_transparent
+#print axioms GoMC.Props.C10.C10_switch_readahead_loses
